@@ -225,7 +225,9 @@ pub fn check(exe: &std::path::Path, tag: &str, c: &Case, st: &mut Stats) {
         let js = match out.json.as_ref().and_then(|t| xjson::parse(t).ok()) {
             Some(j) => j,
             None => {
-                st.count("cli_runs_without_parseable_json(not a C10 event; C20 decides)");
+                // exit 0 and a logged final score, but the file holds no structure that could
+                // have that score (absent, truncated, or followed by something else)
+                st.violation(viol("written-file-is-not-a-structure", c, json!({"replications": k, "file_present": out.json.is_some(), "bytes": out.json.as_ref().map(|t| t.len()), "parse_error": out.json.as_ref().and_then(|t| xjson::parse(t).err()), "tail": out.json.as_ref().map(|t| t.chars().rev().take(60).collect::<String>().chars().rev().collect::<String>())})));
                 return;
             }
         };
